@@ -178,6 +178,8 @@ def check(case):
                                       enforce_checks=False)
     results = {}
     failed = {}
+    trained = {}
+    ens_done = False
     counters = {"fit_calls_checked": 0}
     with scratch_dir() as tmp:
         frng = np.random.default_rng(case["colperm"] + 1)
@@ -245,6 +247,35 @@ def check(case):
             require(it == case["max_iter"], "fit-count",
                     f"{tag}: the estimator was fitted {it} times for max_iter={case['max_iter']} (every iteration re-labels and re-fits)")
             results[tag] = preds
+            trained[tag] = model
+        # ---- ensemble rescoring with trained models that store their features in different orders: the average over the
+        # models does not depend on the order in which they are listed (each model finds its features by name)
+        if "id-shuf" in trained and "feature-list-permuted" in trained and case["perm"] % 3 == 0:
+            import brewlib
+
+            path = tmp / "ens.parquet"
+            datagen.write_table(df, path)
+            outs = []
+            try:
+                import copy
+
+                for pair in (("id-shuf", "feature-list-permuted"), ("feature-list-permuted", "id-shuf")):
+                    ms = [copy.copy(trained[t_]) for t_ in pair]
+                    for k_, m_ in enumerate(ms):
+                        m_.fold = k_ + 1  # as the fold models returned by brew / re-loaded by the command line carry it
+                    ds = datagen.build_ondisk(path, df, meta)
+                    res = guarded(mokapot.brew, [ds], ms, test_fdr=max(thr, 0.2), folds=2, max_workers=1, rng=7, ensemble=True,
+                                  allowed=brewlib.ALLOWED_BREW, sig="brew-ensemble")
+                    outs.append(np.asarray(res[2][0], dtype=float))
+            except Rejected:
+                outs = []
+            if len(outs) == 2:
+                ens_done = True
+                sc_ = max(1.0, float(np.max(np.abs(outs[0]))))
+                require(outs[0].shape == outs[1].shape and bool(np.allclose(outs[0], outs[1], rtol=0, atol=1e-9 * sc_)), "ensemble-feature-position",
+                        f"ensemble rescoring with two trained models (features stored as {list(trained['id-shuf'].features)[:4]}... and "
+                        f"{list(trained['feature-list-permuted'].features)[:4]}...) gives other scores when the models are listed in the "
+                        f"other order (max diff {float(np.max(np.abs(outs[0] - outs[1]))):.3g})")
     if failed and any("No PSMs accepted at train_fdr" in m or "No PSMs found below" in m for m in failed.values()):
         # the rejection claims that no target is accepted at the training FDR under the initial direction: verify
         best = 0
@@ -283,6 +314,8 @@ def check(case):
         classes.append("features-permuted")
     if case.get("casenames"):
         classes.append("feature-names-differ-in-case-only")
+    if ens_done:
+        classes.append("ensemble-of-models-with-different-feature-orders")
     nontrivial = case["max_iter"] >= 2 and not np.array_equal(perm, ident)
     return {"nontrivial": nontrivial, "classes": classes, "counters": counters}
 
